@@ -143,6 +143,70 @@ def statics_monitor(chk, quick):
         info["candidates_confirmed_by_real_replay"] = confirmed
         if info.get("pointers_among_mutable"):
             chk.note("mutable static words hold addresses (heap data behind a static root): state injection skipped, replay permutations only")
+    # ---- first-use statics: words that change exactly once in a process are first-use initialisations (guards, lazily built tables).
+    #      Their final value must not depend on which event happened to come first: several processes walk the pool in different
+    #      orders and report those words; a word that ends with different values is injected both ways before every pool shot, and a
+    #      dependence is confirmed by real replays ([A1; X] vs [A2; X]) in fresh processes.
+    max_items = 3000 if quick else 100000
+    orders = list(range(1, (6 if quick else 16) + 1))
+
+    def fu(os_):
+        return (os_,) + run([exe, "firstuse", f.name, str(chk.seed), str(n_iid), str(os_), str(max_items)], timeout=7200, env=build.lib_env("plain"))
+
+    seen = {}
+    nproc = 0
+    for os_, rc, out, err in pmap(fu, orders, jobs=NCPU):
+        recs = [json.loads(l) for l in out.splitlines() if l.startswith("{")]
+        if rc != 0 or not recs:
+            chk.inconclusive_("c07_statics firstuse (order %d) exited %s: %s" % (os_, rc, err[-300:]))
+            continue
+        nproc += 1
+        for w in recs[0]["once"]:
+            seen.setdefault(w["word"], {}).setdefault(w["value"], (w["item"], w["config"], os_))
+    info["first_use"] = {"processes": nproc, "orders": len(orders), "words_changed_exactly_once": len(seen), "words_with_order_dependent_value": 0,
+                         "address_like_values_ignored": 0, "confirmed": 0}
+    varying = {}
+    for w, vals in seen.items():
+        if len(vals) < 2:
+            continue
+        if any(0x10000 < int(v, 16) < (1 << 47) and int(v, 16) > 0x100000000 for v in vals):
+            info["first_use"]["address_like_values_ignored"] += 1    # a pointer to a lazily allocated object: differs by construction
+            continue
+        varying[w] = vals
+    info["first_use"]["words_with_order_dependent_value"] = len(varying)
+    if varying:
+        names = resolve_symbols(os.path.join(build.variant_dir("plain"), "libBxDecay0.so"), list(varying))
+        wf = tempfile.NamedTemporaryFile("w", suffix=".words", delete=False, dir=build.variant_dir("plain"))
+        pairs = {}
+        for w, vals in varying.items():
+            (v1, a1), (v2, a2) = list(vals.items())[:2]
+            wf.write("%s %s %s\n" % (w, v1, v2))
+            pairs[w] = (a1, a2)
+        wf.close()
+        rc, out, err = run([exe, "fuinject", f.name, str(chk.seed), str(n_iid), wf.name, str(max_items)], timeout=7200, env=build.lib_env("plain"))
+        os.unlink(wf.name)
+        recs = [json.loads(l) for l in out.splitlines() if l.startswith("{")]
+        wit = recs[0]["witness_items"] if recs else []
+        info["first_use"]["injected_shots"] = recs[0]["shots"] if recs else 0
+        info["first_use"]["items_depending_on_the_value"] = recs[0]["differing"] if recs else 0
+        syms = "; ".join(names[w] for w in varying)
+        for x in wit[:4]:
+            for w, (a1, a2) in pairs.items():
+                env = build.lib_env("plain")
+                o1 = run([exe, "replay", f.name, str(chk.seed), str(a1[0]), str(x), str(n_iid)], timeout=600, env=env)[1]
+                o2 = run([exe, "replay", f.name, str(chk.seed), str(a2[0]), str(x), str(n_iid)], timeout=600, env=env)[1]
+                if o1.strip() and o2.strip() and o1 != o2:
+                    info["first_use"]["confirmed"] += 1
+                    chk.violation("first-call-wins|" + syms[:160],
+                                  "a first-use static of the library (%s) keeps a value that depends on which event came first in the process: the same tape gives another "
+                                  "event after one shot of %s than after one shot of %s" % (syms, a1[1], a2[1]),
+                                  {"history_1": "fresh process: shoot item %d (%s), then item %d" % (a1[0], a1[1], x), "history_2": "fresh process: shoot item %d (%s), then item %d" % (a2[0], a2[1], x),
+                                   "event_1": o1[:1500], "event_2": o2[:1500], "replay": "%s replay <spec> %d <a> %d %d" % (exe, chk.seed, x, n_iid)})
+                    break
+            if info["first_use"]["confirmed"]:
+                break
+        if not info["first_use"]["confirmed"]:
+            chk.note("first-use statics with order-dependent values (%s): no event of the pool depends on them" % syms[:200])
     os.unlink(f.name)
     return info
 
@@ -193,7 +257,9 @@ def main():
                 "forwards by one instance and backwards by its twin (every event of the stream compared); static-storage monitor: the "
                 "writable static storage of libBxDecay0.so (.data/.bss and this thread's TLS block) is snapshotted after every shot of a pool of steered "
                 "runs; words that change more than once are mutable static state; their observed end-of-shot values are injected before every pool shot and "
-                "any dependence is confirmed by real replays ([A; X] vs [X]) in fresh processes; "
+                "any dependence is confirmed by real replays ([A; X] vs [X]) in fresh processes; first-use statics (words that change exactly once) are "
+                "collected from processes that walk the pool in different orders: one that ends with different values is injected both ways and confirmed "
+                "by replays [A1; X] vs [A2; X]; "
                 "distinct = configurations x history kinds",
         "samples": samples or [{"note": "none"}],
         "configurations": nconf,
